@@ -25,7 +25,7 @@ func init() {
 	ev.Register(&ev.Check{
 		ID:               "C07",
 		Level:            "exploration",
-		Rule:             "roles {schema, user type (7 usages: alias, property, item, key shortcut, allOf parent, type rule, or rule), enum rule, regex type, document (2 modes, 4 schemas)} x every public method on fresh objects and in sequence on one object, over inputs: (i) ALL strings <= 4 (thorough 5) over a 26-symbol schema alphabet; (ii) every truncation and every single-byte deletion / insertion / substitution by 12 (thorough 26) symbols at every offset of the corpus (all testdata schema/type/enum/json files <= 400 (thorough 4096) bytes + generator outputs); (v) grammar-directed product: 7 examples x 21 rule names x 46 hostile rule values x 6 annotation positions (+ 7 second rules in both orders), 140 type bodies over self/other/missing references, enum and regex bodies x 18 comment/literal tails; (iii) numerals with huge exponents in isolated, memory-capped processes; (iv) EVERY errors.Format / ErrorCode construction site found by go/parser in the current tree and EVERY row of the template table, executed. Oracle: no panic, no process death, termination, every error exposes ErrCode()+Message() (directly or via errors.As), Position() < max(1,len(source it names)), Error()/Line()/SourceSubString() do not panic. Non-trivial = distinct (role, input).",
+		Rule:             "roles {schema, user type (8 usages: alias, property, item, key shortcut, allOf parent at the root and deep inside a long root text, type rule, or rule), enum rule, regex type, document (2 modes, 4 schemas)} x every public method on fresh objects and in sequence on one object, over inputs: (i) ALL strings <= 4 (thorough 5) over a 26-symbol schema alphabet; (ii) every truncation and every single-byte deletion / insertion / substitution by 12 (thorough 26) symbols at every offset of the corpus (all testdata schema/type/enum/json files <= 400 (thorough 4096) bytes + generator outputs); (v) grammar-directed product: 7 examples x 21 rule names x 46 hostile rule values x 6 annotation positions (+ 7 second rules in both orders), 140 type bodies over self/other/missing references, enum and regex bodies x 18 comment/literal tails, runs of 1..12 malformed UTF-8 units inside strings in every role; (iii) numerals with huge exponents in isolated, memory-capped processes; (iv) EVERY errors.Format / ErrorCode construction site found by go/parser in the current tree and EVERY row of the template table, executed. Oracle: no panic, no process death, termination, every error exposes ErrCode()+Message() (directly or via errors.As), Position() < max(1,len(source it names)), Error()/Line()/SourceSubString() do not panic. Non-trivial = distinct (role, input).",
 		Run:              run,
 		Replay:           replay,
 		QuickBudget:      85 * time.Second,
@@ -369,7 +369,10 @@ func report(c *ev.Ctx, role, text string, f finding) {
 
 // typeRoots: the usages of the user type @t the type role is run under.
 var typeRoots = []string{"@t", "{\n  \"k\": @t\n}", "[\n  @t\n]",
-	"{\n  @t : 1\n}", "{ // {allOf: \"@t\"}\n  \"y\": 1\n}", "1 // {type: \"@t\"}", "{\n  \"k\": 1 // {or: [\"@t\", \"@u\"]}\n}"}
+	"{\n  @t : 1\n}", "{ // {allOf: \"@t\"}\n  \"y\": 1\n}", "1 // {type: \"@t\"}", "{\n  \"k\": 1 // {or: [\"@t\", \"@u\"]}\n}",
+	// the type is an allOf parent of an object that lies deep inside a long root text:
+	// a position taken from the wrong file falls behind the end of the type's own text
+	"{\n  \"a_long_key_in_front_of_the_object_that_inherits_from_the_type_under_test\": \"and a long value as well, so that offsets in this file exceed the length of short type texts\",\n  \"n\": { // {allOf: \"@t\"}\n    \"y\": 1\n  }\n}"}
 
 // repoRoot: the library tree the harness was built against (the launcher sets
 // VERIF_REPO when it is not /repo).
